@@ -4,7 +4,7 @@ LEMMAS = {}
 NOT_BUILT = {}
 
 SO_MODS = ['contracts.so_tick', 'contracts.so_msg', 'contracts.so_apply', 'contracts.so_submit', 'contracts.so_member',
-           'contracts.so_send', 'contracts.so_dump']
+           'contracts.so_send', 'contracts.so_dump', 'contracts.so_wrapper']
 
 A_RAFT = ('A-RAFT: the local rules proved here (R1-R11 of DESIGN §3.3) imply the cluster-wide statement by the published Raft '
           'argument (log matching, leader completeness, state-machine safety); that composition over several nodes and '
@@ -39,7 +39,7 @@ P('C01', ['msg.append_entries', 'applyLogEntries', 'doApplyCommand', 'sendAppend
                'A-DUMP: the two entries of a dump are contiguous', 'A-USERCODE', 'A-CMD: log commands are non-empty',
                'A-PROTO-4: nextIndex <= first journal index only for a compacted journal'])
 
-P('C02', ['FastQueue', 'applyCommand', 'checkCommandsToApply', 'msg.apply_command', 'msg.apply_command_response', 'applyLogEntries',
+P('C02', ['replicated.newFunc', 'FastQueue', 'applyCommand', 'checkCommandsToApply', 'msg.apply_command', 'msg.apply_command_response', 'applyLogEntries',
           'tick.election', 'msg.append_entries'],
   'The FAIL_REASON table of the statement as contracts on the real functions: a submission is enqueued xor QUEUE_FULL once (O2.2); each '
   'dequeued item gets exactly one disposition - appended by the leader with a subscription / success reply naming (index, term), '
@@ -48,7 +48,7 @@ P('C02', ['FastQueue', 'applyCommand', 'checkCommandsToApply', 'msg.apply_comman
   'pending forwarded callback once (O2.6); at apply time every subscriber of the index fires exactly once, SUCCESS with this '
   'execution\'s result iff the terms agree, else DISCARDED (O2.4).',
   '"SUCCESS => the command occupies one position cluster-wide and is never undone" and "error => applied on no node" beyond the local '
-  'journal rest on ' + A_RAFT + '. The sync wrapper inside the `replicated` decorator (closure, threading.Event) is not under contract. '
+  'journal rest on ' + A_RAFT + '. The closure of the `replicated` decorator is under contract (unit replicated.newFunc; threading.Event trusted); `replicated_sync` only sets defaults and delegates. '
   'Thread interleavings are C19 (not applicable).',
   assumptions=[A_RAFT, 'A-PROTO-3: a success reply for index i reaches the submitter before it applies i', 'A-USERCODE'])
 
@@ -79,20 +79,19 @@ P('C06', ['loadDumpFile', 'msg.append_entries', 'tryLogCompaction', 'serializer.
   modules=SO_MODS + ['contracts.ser_units', 'contracts.journal_units'],
   assumptions=['T-RENAME, T-MMAP (via C08)', 'kill = process kill, not power loss'])
 
-P('C10', ['changeCluster', 'doChangeCluster', 'checkCommandsToApply.membership', 'loadDumpFile', 'doApplyCommand', 'msg.response_vote'],
+P('C10', ['changeCluster', 'doChangeCluster', 'checkCommandsToApply.membership', 'msg.append_entries.membership', 'loadDumpFile', 'doApplyCommand', 'msg.response_vote'],
   'Leader gate from the statement (accepted only after the own no-op is applied and with no unapplied membership entry, O10.1) under '
   'the bookkeeping invariant I9, whose preservation by the leader\'s append is proved; exact effect of applying/reversing a request on '
   'voters, nextIndex, matchIndex, lastResponse and the transport (O10.2); member set restored from a dump (O9.4).',
-  'Follower-side apply-on-append / rollback-on-truncate loops (O10.3) are covered only through the doChangeCluster contract, not as '
-  'loop contracts. Safety of single-server changes across nodes is ' + A_RAFT + ' extended to membership.',
+  'Follower-side apply-on-append / rollback-on-truncate loops (O10.3) are loop contracts in unit msg.append_entries.membership. Safety of single-server changes across nodes is ' + A_RAFT + ' extended to membership.',
   assumptions=[A_RAFT, 'I9 as quantified hypothesis', 'observers never carry member addresses (O14.1)'])
 
-P('C11', ['sendAppendEntries', 'msg.append_entries', 'doApplyCommand', 'applyCommand', 'tick.leader'],
+P('C11', ['replicated.newFunc', 'sendAppendEntries', 'msg.append_entries', 'doApplyCommand', 'applyCommand', 'tick.leader'],
   'Batching (non-empty contiguous batch, O11.2), the big-entry chunk loop as a loop contract (first chunk start, finish exactly on the '
   'last chunk, each chunk the slice at its position, O11.3), follower reassembly (O11.4), decode/dispatch of the three command shapes '
   '(O11.1), and no exception escaping the send loop, the handler or the apply path (O11.5), for all sizes.',
-  'Journal growth for big records is C08 (ResizableFile.write). The argument packing inside the `replicated` decorator closure is not '
-  'under contract (frame introspection, X4).',
+  'Journal growth for big records is C08 (ResizableFile.write). The argument packing inside the `replicated` decorator closure is unit replicated.newFunc; the frame '
+  'introspection that installs the _vN copies is X4 (bounded stand-in of C17).',
   assumptions=['T-PICKLE: len(dumps(entry)) > len(command)', 'A-PROTO-4'])
 
 P('C12', ['applyLogEntries', 'doApplyCommand'],
@@ -112,7 +111,7 @@ P('C16', ['lock.acquire', 'lock.prolongate', 'lock.release', 'lock.isAcquired'],
   lemmas=['L-LOCK'], modules=['contracts.bat_lock'], trusted=[],
   assumptions=['A-LOCKTIME: one client\'s timestamps are non-decreasing in log order; a command\'s timestamp is a clock reading taken before it is applied'])
 
-P('C17', ['applyLogEntries', 'doApplyCommand', 'loadDumpFile', 'setCodeVersion'],
+P('C17', ['replicated.newFunc', 'applyLogEntries', 'doApplyCommand', 'loadDumpFile', 'setCodeVersion'],
   'VERSION entry semantics (O17.3), stop-at-unsupported-version in the apply loop (O17.5), request validation (O17.4) and name table '
   'rebuilt for the restored version after a dump load (O17.6), as contracts on the real functions.',
   'Method-id enumeration and the name-table construction use reflection (dir/getattr, X4): they are checked by a bounded native '
